@@ -5,7 +5,7 @@ import re
 from typing import Dict, List, Optional, Set, Tuple
 
 from ..model import Repo, FunctionInfo, AnalysisError, walk_no_nested, src, is_self_attr, call_name, dotted, parent, ancestors
-from ..core import Ob, Rule, Mutant, mutate_module, find_def, replace_node, text_mutant
+from ..core import inconclusive, Ob, Rule, Mutant, mutate_module, find_def, replace_node, text_mutant
 from ..dataflow import Defs
 from ..astq import is_stringy, template_of, Lit, Hole, Chunk
 
@@ -42,6 +42,8 @@ def _top_level_templates(f: FunctionInfo):
                 skip = True
             if isinstance(a, ast.Call) and call_name(a) in DISPLAY_CALLS:
                 skip = True
+            if isinstance(a, ast.Call) and (call_name(a) or "").endswith(("Exception", "Error", "Warning")):
+                skip = True   # message of an exception object, wherever it is raised
             if isinstance(a, (ast.FunctionDef, ast.AsyncFunctionDef)):
                 break
         if not skip:
@@ -375,10 +377,14 @@ def rule_grammar_arithm(repo: Repo) -> List[Ob]:
                   "arithm re-stringifies all children in order with the empty separator" if ok else why))
     # Parser must install that transformer
     pf = repo.function("inputparser/parser.py", "Parser.parse_string")
-    inst = any(isinstance(c, ast.Call) and call_name(c) == "Lark" and any(k.arg == "transformer" and "ArithmeticToStringTransformer" in src(k.value) for k in c.keywords)
-               for c in walk_no_nested(pf.node))
-    obs.append(Ob("C-grammar", "inputparser/parser.py::Parser.parse_string::transformer", pf.relpath, pf.node.lineno, pf.qualname, inst,
-                  "Lark is built with the arithmetic re-stringifier" if inst else "Lark is not given ArithmeticToStringTransformer"))
+    larks = [(g, c) for g in repo.functions if g.relpath == "inputparser/parser.py" for c in walk_no_nested(g.node) if isinstance(c, ast.Call) and call_name(c) == "Lark"]
+    key = "inputparser/parser.py::Parser.parse_string::transformer"
+    if not larks:
+        obs.append(inconclusive("C-grammar", key, pf.relpath, pf.node.lineno, pf.qualname, "construction of the Lark parser not found in inputparser/parser.py"))
+    else:
+        bare = [(g, c) for g, c in larks if not any(k.arg == "transformer" and "ArithmeticToStringTransformer" in src(k.value) for k in c.keywords) and not any(k.arg is None for k in c.keywords)]
+        obs.append(Ob("C-grammar", key, pf.relpath, (bare or larks)[0][1].lineno, (bare or larks)[0][0].qualname, not bare,
+                      "Lark is built with the arithmetic re-stringifier" if not bare else "Lark is not given ArithmeticToStringTransformer"))
     return obs
 
 
